@@ -231,7 +231,10 @@ class TMix:
         return r
 
     def _route_ctx(s):
-        return [(n.number_of_individuals, n.number_in_service) for n in s.simulation.transitive_nodes]
+        # engine counters, then the TRUE population and number of started services read off the raw queues
+        return [(n.number_of_individuals, n.number_in_service, sum(len(q) for q in n.individuals),
+                 sum(1 for q in n.individuals for i in q if i.service_start_date is not False))
+                for n in s.simulation.transitive_nodes]
 
     def next_node(s, ind):
         rb = _route_copy(ind)
